@@ -103,7 +103,7 @@ TIssue(r, o, h2) ==
 \* the stage a request is in (for the event record: where the deadline fired)
 Stage(r) ==
   IF req[r].st = "sending" THEN (IF tev.pool = "Handoff" THEN "sending" ELSE "awaiting")
-  ELSE IF co[r].waiter = "Connecting" /\ co[r].inner = "Waiting" THEN "pure-waiter"
+  ELSE IF co[r].waiter = "Connecting" /\ co[r].d = 0 THEN "pure-waiter"
   ELSE IF co[r].d # 0 /\ gc[co[r].d] = "ok" THEN "own-dial-handshaking"
   ELSE IF co[r].d # 0 THEN "own-dial-connecting"
   ELSE "other"
@@ -237,38 +237,65 @@ Advance(dt) ==
   /\ UNCHANGED <<cfg, connecting, waiting, idle, chan, co, gc, gh, dl, conn, held, wr, req, polled, rxw, dw, ndial, now>>
   /\ UNCHANGED <<dur, resp, rw, out, inn, pc>>
 
-\* an action of the pool or of its environment that does not involve the timeout layer
-PoolStep(A) ==
+\* actions of the pool and of its environment that do not involve the timeout layer
+PoolTail == tev' = FromEv(ev') /\ UNCHANGED <<t, dur, tm, resp, rw, out, inn, pc>>
+TBgPoll(r) == pc = Idle /\ BgPoll(r) /\ PoolTail
+TWhenReady(hd) == pc = Idle /\ WhenReadyStep(hd) /\ PoolTail
+\* Pool!EnvConnect / Pool!EnvHandshake with one refinement that only matters here, where a request is still observed
+\* (and polled) after its hand-off: once the checkout of dw[d] continues in the background (co.st = "bg"), the task that
+\* runs it has polled the connector and the gate holds THAT task's waker, not the request's any more
+GateWake(d) == IF dw[d] # 0 /\ co[dw[d]].st = "active" THEN [woken EXCEPT ![dw[d]] = TRUE] ELSE woken
+TEnvConnect(d, ok) ==
   /\ pc = Idle
-  /\ A
-  /\ tev' = FromEv(ev')
-  /\ UNCHANGED <<t, dur, tm, resp, rw, out, inn, pc>>
+  /\ d <= ndial /\ gc[d] = "none"
+  /\ ok \/ "connect" \in Faults
+  /\ gc' = [gc EXCEPT ![d] = IF ok THEN "ok" ELSE "fail"]
+  /\ woken' = GateWake(d)
+  /\ ev' = [Ev("EnvConnect") EXCEPT !.d = d, !.ok = ok]
+  /\ UNCHANGED <<cfg, connecting, waiting, idle, chan, co, gh, dl, conn, held, wr, req, polled, rxw, dw, ndial, now>>
+  /\ PoolTail
+TEnvHandshake(d, ok) ==
+  /\ pc = Idle
+  /\ d <= ndial /\ gc[d] = "ok" /\ gh[d] = "none"
+  /\ ok \/ "handshake" \in Faults
+  /\ gh' = [gh EXCEPT ![d] = IF ok THEN "ok" ELSE "fail"]
+  /\ woken' = GateWake(d)
+  /\ ev' = [Ev("EnvHandshake") EXCEPT !.d = d, !.ok = ok]
+  /\ UNCHANGED <<cfg, connecting, waiting, idle, chan, co, gc, dl, conn, held, wr, req, polled, rxw, dw, ndial, now>>
+  /\ PoolTail
+TConnReady(c) == pc = Idle /\ ConnReady(c) /\ PoolTail
+TPeerClose(c) == pc = Idle /\ PeerClose(c) /\ PoolTail
 
 TNext ==
   \/ \E r \in Req, o \in Origins, h2 \in Protos : TIssue(r, o, h2)
-  \/ \E r \in Req : TPollStart(r) \/ ExecSub(r) \/ TimerSub(r) \/ KeptPoll(r)
+  \/ \E r \in Req : TPollStart(r)
+  \/ \E r \in Req : ExecSub(r)
+  \/ \E r \in Req : TimerSub(r)
+  \/ \E r \in Req : KeptPoll(r)
   \/ \E r \in Req, ok \in BOOLEAN : ResponseReady(r, ok)
   \/ \E dt \in 1..MaxT : Advance(dt)
-  \/ \E r \in Req : PoolStep(BgPoll(r))
-  \/ \E h \in wr : PoolStep(WhenReadyStep(h))
-  \/ \E d \in Dial, ok \in BOOLEAN : PoolStep(EnvConnect(d, ok)) \/ PoolStep(EnvHandshake(d, ok))
-  \/ \E c \in Dial : PoolStep(ConnReady(c)) \/ PoolStep(PeerClose(c))
+  \/ \E r \in Req : TBgPoll(r)
+  \/ \E hd \in wr : TWhenReady(hd)
+  \/ \E d \in Dial, ok \in BOOLEAN : TEnvConnect(d, ok)
+  \/ \E d \in Dial, ok \in BOOLEAN : TEnvHandshake(d, ok)
+  \/ \E c \in Dial : TConnReady(c)
+  \/ \E c \in Dial : TPeerClose(c)
 
 TSpec == TInit /\ [][TNext]_allvars
 
 TFairness ==
-  /\ \A r \in Req : WF_allvars(TPollStart(r)) /\ WF_allvars(ExecSub(r)) /\ WF_allvars(TimerSub(r)) /\ WF_allvars(PoolStep(BgPoll(r)))
-  /\ \A d \in Dial : WF_allvars(\E ok \in BOOLEAN : PoolStep(EnvConnect(d, ok))) /\ WF_allvars(\E ok \in BOOLEAN : PoolStep(EnvHandshake(d, ok)))
-  /\ WF_allvars(\E h \in wr : PoolStep(WhenReadyStep(h)))
-  /\ \A c \in Dial : WF_allvars(PoolStep(ConnReady(c)))
+  /\ \A r \in Req : WF_allvars(TPollStart(r)) /\ WF_allvars(ExecSub(r)) /\ WF_allvars(TimerSub(r)) /\ WF_allvars(TBgPoll(r))
+  /\ \A d \in Dial : WF_allvars(\E ok \in BOOLEAN : TEnvConnect(d, ok)) /\ WF_allvars(\E ok \in BOOLEAN : TEnvHandshake(d, ok))
+  /\ WF_allvars(\E hd \in wr : TWhenReady(hd))
+  /\ \A c \in Dial : WF_allvars(TConnReady(c))
   /\ WF_allvars(\E dt \in 1..MaxT : Advance(dt))
 \* for ProbeCompletes the clock is NOT fair (the probe has no deadline and must complete by the pool alone),
 \* but the response of a request that was handed to the inner service eventually arrives
 ProbeFairness ==
-  /\ \A r \in Req : WF_allvars(TPollStart(r)) /\ WF_allvars(ExecSub(r)) /\ WF_allvars(TimerSub(r)) /\ WF_allvars(PoolStep(BgPoll(r)))
-  /\ \A d \in Dial : WF_allvars(\E ok \in BOOLEAN : PoolStep(EnvConnect(d, ok))) /\ WF_allvars(\E ok \in BOOLEAN : PoolStep(EnvHandshake(d, ok)))
-  /\ WF_allvars(\E h \in wr : PoolStep(WhenReadyStep(h)))
-  /\ \A c \in Dial : WF_allvars(PoolStep(ConnReady(c)))
+  /\ \A r \in Req : WF_allvars(TPollStart(r)) /\ WF_allvars(ExecSub(r)) /\ WF_allvars(TimerSub(r)) /\ WF_allvars(TBgPoll(r))
+  /\ \A d \in Dial : WF_allvars(\E ok \in BOOLEAN : TEnvConnect(d, ok)) /\ WF_allvars(\E ok \in BOOLEAN : TEnvHandshake(d, ok))
+  /\ WF_allvars(\E hd \in wr : TWhenReady(hd))
+  /\ \A c \in Dial : WF_allvars(TConnReady(c))
   /\ WF_allvars(\E ok \in BOOLEAN : ResponseReady(NReq, ok))
 TFairSpec == TSpec /\ TFairness
 ProbeSpec == TSpec /\ ProbeFairness
